@@ -1085,21 +1085,24 @@ def main():
     ill = []
     cur = list(obs)
     degraded = None
-    for it in range(12):
+    checked_empty = False
+    for it in range(8):
         where = emit(gen, part, tier, seed, cur, ill, allt)
         rc, err = syntax_only(out, part)
         stats["passes"] += 1
         if rc == 0:
             break
         bad = failing_lines(err, genname, where)
-        if not bad:
-            # not attributable to a table line: do the headers compile at all (empty table)?
+        if (not bad or (it == 0 and len(bad) * 5 >= 2 * len(cur))) and not checked_empty:
+            # nothing (or suspiciously much) is attributable to table lines: do the headers compile at all (empty table)?
+            checked_empty = True
             emit(gen, part, tier, seed, [], [], allt)
             rc0, err0 = syntax_only(out, part)
             stats["passes"] += 1
             if rc0 != 0:
                 degraded = first_error(err0)
                 break
+        if not bad:
             # bisection fallback over the remaining obligations
             bad_obs = bisect(out, part, tier, seed, gen, cur, allt, stats)
             badn = set(o.name for o in bad_obs)
@@ -1114,7 +1117,7 @@ def main():
         ill += [o for o in cur if o.name in badn]
         cur = [o for o in cur if o.name not in badn]
     else:
-        log("C15_gen[%s]: pre-pass did not converge after 12 passes" % part)
+        log("C15_gen[%s]: pre-pass did not converge after 8 passes" % part)
         return 3
     if degraded is not None:
         write_cfg(cfg, degraded)
@@ -1166,7 +1169,7 @@ def main():
     return 0
 
 
-def bisect(out, part, tier, seed, gen, obs, allt, stats, budget=40):
+def bisect(out, part, tier, seed, gen, obs, allt, stats, budget=16):
     """fallback when GCC names no table line: find failing obligations by halving (bounded)"""
     bad = []
 
